@@ -63,7 +63,7 @@ Definition merc_projection (flog fexp : float -> float) (p : plate_carree) : pro
 (** * Edge tessellator (s2/edge_tessellator.go) *)
 Definition tess_t1 : float := (0x1.3fa60fe8ea0e3p-2)%float.     (* tessellationInterpolationFraction *)
 Definition tess_t2 : float := (0x1.602cf80b8af8ep-1)%float.     (* 1 - tessellationInterpolationFraction (constant-folded) *)
-Definition tess_scale : float := (0x1.ad35a6b3d3bc5p-1)%float.  (* tessellationScaleFactor (declared; NOT used by the Go code) *)
+Definition tess_scale : float := (0x1.ad35a6b3d3bc5p-1)%float.  (* tessellationScaleFactor *)
 Definition tess_min_tol : float := (0x1.c25c268497682p-44)%float. (* minTessellationTolerance = 1e-13 *)
 Definition tess_long_edge : float := (-0x1.6849b86a12b9bp-47)%float. (* -1e-14 *)
 
@@ -76,12 +76,12 @@ Definition estimateMaxError (P : projection) (pa : r2_Point) (a : s2_Point) (pb 
     let pmid2 := proj_unproject P (proj_interpolate P tess_t2 pa pb) in
     s2_maxChordAngle (s2_ChordAngleBetweenPoints mid1 pmid1) [s2_ChordAngleBetweenPoints mid2 pmid2].
 
-(** NewEdgeTessellator's scaledTolerance — as the Go code computes it *)
+(** NewEdgeTessellator's scaledTolerance (as repaired by /repo commit ea2b899: the scale factor is applied) *)
 Definition scaledTolerance (tolerance : float) : float :=
-  s1_ChordAngleFromAngle (s2_maxAngle tolerance [tess_min_tol]).
-(** what the algorithm description (and the C++ original) prescribe *)
-Definition scaledTolerance_spec (tolerance : float) : float :=
   s1_ChordAngleFromAngle (PrimFloat.mul tess_scale (s2_maxAngle tolerance [tess_min_tol])).
+(** before ea2b899: tessellationScaleFactor was declared but never used *)
+Definition scaledTolerance_old (tolerance : float) : float :=
+  s1_ChordAngleFromAngle (s2_maxAngle tolerance [tess_min_tol]).
 
 (** a leaf of the recursion: the planar segment pa-pb that was accepted for the geodesic a-b *)
 Record seg := mk_seg { seg_pa : r2_Point; seg_a : s2_Point; seg_pb : r2_Point; seg_b : s2_Point }.
